@@ -17,6 +17,7 @@
 From Coq Require Import List NArith Bool Permutation.
 From AdltV Require Import Base.Res Base.MachInt Merge.Multi Merge.MultiProofs Filter.Sets Lifecycle.Model
      Convert.Select Convert.SelectProofs Convert.OrderProofs Convert.DetProofs Convert.SortInstance Exec.C14.
+From AdltV Require Dlt.Frame Dlt.Iter Dlt.Write Dlt.WriteProofs Properties.C02.
 Import ListNotations.
 Open Scope N_scope.
 
@@ -56,6 +57,27 @@ Section Statements.
   Proof. intros tw o r em [H1 [H2 _]]. rewrite H2. split; [destruct (o_file o); reflexivity|exact H1]. Qed.
 End Statements.
 
+(* ... and re-reading that file gives exactly those messages (composition with C02: DltMessage::to_write per
+   message in order, read back by DltMessageIterator).  [full x] is the complete DLT message the abstract message x
+   stands for; input messages come out of the parser, i.e. are "parsed" messages in the sense of C02. *)
+Theorem C14_written_file_rereads : forall (full : cmsg -> Frame.msg) o r em,
+  emitted o r em -> o_file o = true ->
+  Forall (fun x => C02.parsed (full x)) em -> N.of_nat (length em) <= u32max ->
+  r_file r = Some em /\
+  exists bytes ms' st,
+    Write.write_all (map full em) = Ok bytes /\
+    Iter.run_iter 0 bytes = Ok (ms', st, []) /\
+    Forall2 WriteProofs.same_fields (map full em) ms' /\
+    length ms' = length em.
+Proof.
+  intros full o r em [_ [H2 _]] Ho Hp Hb. rewrite Ho in H2. split; [exact H2|].
+  destruct (C02.C02_export_roundtrip 0 (map full em)) as [bytes [ms' [st [Hw [Hr [Hs _]]]]]].
+  - rewrite Forall_map. exact Hp.
+  - rewrite map_length. exact Hb.
+  - exists bytes, ms', st. split; [exact Hw|]. split; [exact Hr|]. split; [exact Hs|].
+    clear -Hs. rewrite <- (map_length full em). induction Hs; cbn; congruence.
+Qed.
+
 (* what [selected] says, in words of the property: inside the window, lifecycle chosen (or no --lcs), and
    (no enabled positive filter or one matches) and no enabled negative filter matches *)
 Theorem C14_selected_meaning : forall o x,
@@ -74,6 +96,19 @@ Theorem C14_input_is_the_files : forall args inp,
   map c_index inp = nseq 0 (length inp) /\ NoDup (map c_index inp) /\
   Permutation (map c_uid inp) (map c_uid (all_msgs args)).
 Proof. exact Input_spec. Qed.
+
+(* ... and under [DistinctFirst] the streams that are merged contain every named file that has a message (as the
+   pair of its first reception time and the file) exactly once -- a file named twice, or under two spellings of
+   its path, is read once -- and nothing else *)
+Theorem C14_streams_files : forall args,
+  DistinctFirst args ->
+  NoDup (concat (streams_of args)) /\
+  (forall e, In e (concat (streams_of args)) <->
+             exists f m, In f (files_ok args) /\ first_msg f = Some m /\ e = (c_rt m, f)).
+Proof.
+  intros args Hd. destruct (streams_files args Hd) as [H1 H2]. split; [exact H1|].
+  intros e. rewrite H2. apply in_entries.
+Qed.
 
 (* no file that can be opened: an error, nothing is emitted *)
 Theorem C14_no_input_file : forall sorter args o res,
@@ -186,8 +221,10 @@ Qed.
 Print Assumptions C14_convert_selects_exactly.
 Print Assumptions C14_no_selection_shows_input.
 Print Assumptions C14_written_file_is_selected.
+Print Assumptions C14_written_file_rereads.
 Print Assumptions C14_selected_meaning.
 Print Assumptions C14_input_is_the_files.
+Print Assumptions C14_streams_files.
 Print Assumptions C14_no_input_file.
 Print Assumptions C14_executable_run_is_a_run.
 Print Assumptions C14_sort_stage_is_buffer_sort.
